@@ -109,7 +109,8 @@ def build_program(prog, residue_check=True):
                 'dce': int(isinstance(obj, ugn.PureUGenMixin)),
                 'multi': int(isinstance(obj, ugn.MultiOutUGen)),
                 'nout': obj._num_outputs(), 'isugen': int(isinstance(obj, ugn.UGen)),
-                'wf': int(isinstance(obj, ugn.WidthFirstUGen)), 'check': check_kind(obj)}
+                'wf': int(isinstance(obj, ugn.WidthFirstUGen)), 'check': check_kind(obj),
+                'ret': int(res is not None)}
             if res is None:
                 return []
             if isinstance(res, list):
@@ -166,6 +167,15 @@ def build_program(prog, residue_check=True):
             rec['out_mode'] = rec.get('out_mode', {})
             rec['out_mode'][i] = mode
             return []
+        if t == 'localbuf':
+            from sc3.synth.ugens.bufio import LocalBuf
+            res = LocalBuf.new(arg(e['frames'], env), arg(e['channels'], env))
+            rec['objs'][i] = res
+            sdef = _libsc3.main._current_synthdef
+            if not rec.get('mlb_event'):
+                rec['mlb_event'] = i
+                rec['mlbobj'] = sdef._max_local_bufs
+            return [res]
         if t == 'raise':
             raise RuntimeError('injected failure in graph function')
         raise ValueError(t)
@@ -243,6 +253,7 @@ def build_program(prog, residue_check=True):
             if obj is c: tok = str(ei)
         for ei, obj in rec['dcobjs'].items():
             if obj is c: tok = f'{ei}.d'
+        if rec.get('mlbobj') is c: tok = f'{rec["mlb_event"]}.d'
         toks.append(tok)
     out['origins'] = ','.join(toks)
     out['hex'] = raw.hex()
@@ -406,6 +417,8 @@ def semantic_oracle(prog, rec, sd, d):
                     senv.append([sarg(e['a']) * sarg(e['m']) + sarg(e['c'])])
                 elif t == 'out':
                     senv.append([])
+                elif t == 'localbuf':
+                    senv.append([sym(i, 0)])
         except ZeroDivisionError:
             raise Skip('division by zero valuation')
 
@@ -427,17 +440,30 @@ def semantic_oracle(prog, rec, sd, d):
                         raise Skip('bad-arg')
                 elif e['t'] == 'out':
                     want = [F(a[1], a[2]) if a[0] == 'n' else senv[a[1]][a[2]] for a in [e['bus']] + e['chans']]
+                elif e['t'] == 'localbuf':
+                    # inputs: channels, frames, the MaxLocalBufs unit
+                    want = [F(a[1], a[2]) if a[0] == 'n' else senv[a[1]][a[2]] for a in (e['channels'], e['frames'])]
+                    want.append(ins[2] if len(ins) == 3 else None)
+                    mi = u['ins'][2][0] if len(u['ins']) == 3 else -1
+                    if mi < 0 or ugens[mi]['cls'] != 'MaxLocalBufs':
+                        return {'what': f'LocalBuf unit {i} is not wired to the MaxLocalBufs unit', 'signature': 'c01:localbuf'}
                 else:
                     want = ins
                 if len(want) != len(ins) or any(x != y for x, y in zip(want, ins)):
                     return {'what': f'unit {i} {c} (event {ev}) is wired to inputs that do not equal the source expressions '
                                     f'(valuation {trial}): emitted {[str(x) for x in ins]}, source {[str(x) for x in want]}',
                             'signature': 'c01:wiring'}
-                vals.append([sym(ev, k) for k in range(max(len(u['outs']), POOL.get(e.get('cls'), (0, 0, 0, 0))[3]))])
+                vals.append([sym(ev, k) for k in range(max(len(u['outs']), POOL.get(e.get('cls'), (0, 0, 0, 1))[3]))])
             elif c == 'Control':
                 vals.append([sym(0, k) for k in range(len(u['outs']))])
             elif c == 'DC':
                 vals.append(list(ins))
+            elif c == 'MaxLocalBufs':
+                nlb = sum(1 for e in events if e['t'] == 'localbuf')
+                if ins != [F(nlb)]:
+                    return {'what': f'MaxLocalBufs declares {ins} local buffers, the function creates {nlb}',
+                            'signature': 'c01:maxlocalbufs'}
+                vals.append([_h('mlb', salt)])
             elif c == 'BinaryOpUGen':
                 name = opcodes_ref.BINARY[u['sp']] if 0 <= u['sp'] < len(opcodes_ref.BINARY) else f'?{u["sp"]}'
                 a, b = ins
